@@ -143,7 +143,9 @@ func (s *Sess) noteVid(v string) {
 func metaField(h http.Header) string {
 	var ps []string
 	for k, v := range h {
-		if strings.HasPrefix(k, "X-Amz-Meta-") || k == "Content-Type" || k == "Content-Encoding" || k == "Content-Disposition" {
+		// everything gofakes3 stores with an object and hands back: the x-amz-* request headers and three entity headers
+		if (strings.HasPrefix(k, "X-Amz-") && k != "X-Amz-Version-Id" && k != "X-Amz-Delete-Marker" && k != "X-Amz-Request-Id" && k != "X-Amz-Id-2" && k != "X-Amz-Copy-Source-Version-Id") ||
+			k == "Content-Type" || k == "Content-Encoding" || k == "Content-Disposition" {
 			ps = append(ps, hs(k)+":"+hs(v[0]))
 		}
 	}
